@@ -4,7 +4,9 @@
            are monotone in the number of queries and never exceed the collision resistance
    mono    two grid neighbours along grinding / extension degree / collision resistance: neither estimate decreases
    policy  the verdict of a minimum-security policy is exactly  level >= minimum
-   optset  the verdict of an option-set policy is exactly membership of the proof's options                *)
+   optset  the verdict of an option-set policy is exactly membership of the proof's options
+   prov_m  (hook) the proven level per proximity parameter m = 3 .. upper bound + 1: the bound is the first inadmissible m,
+           inadmissible parameters contribute nothing, and the reported level is the best admissible one, capped      *)
 EXTENDS Security, Json, IOUtils, TLCExt
 
 Rec == ndJsonDeserialize(IOEnv.TRACE)
@@ -27,7 +29,13 @@ Policy == /\ E.ev = "policy"
 OptSet == /\ E.ev = "optset"
           /\ E.ok = (\E i \in DOMAIN E.set : E.set[i] = E.opt)
 
-Next == l <= Len(Rec) /\ (Row \/ Mono \/ Policy \/ OptSet) /\ l' = l + 1
+ProvM == /\ E.ev = "prov_m"
+         /\ LET n == 2 ^ E.ln IN
+            /\ E.m_max = UpperM(n)
+            /\ \A k \in DOMAIN E.f : ~Admissible(n, k + 2) => E.f[k] = 0
+            /\ E.level = ProvenFrom(E.f, n, E.cr)
+
+Next == l <= Len(Rec) /\ (Row \/ Mono \/ Policy \/ OptSet \/ ProvM) /\ l' = l + 1
 
 Accepted ==
     LET d == TLCGet("stats").diameter
